@@ -678,7 +678,7 @@ def widen_fields(ctoks, body_open, body_close, ed, fired, tuple_struct=False):
 # --------------------------------------------------------------------------------------
 # template processing
 # --------------------------------------------------------------------------------------
-DIRECTIVE = re.compile(r"^\s*//%(\w+)\s*(.*)$")
+DIRECTIVE = re.compile(r"^\s*//%(\w+\??)\s*(.*)$")
 SUB_RE = re.compile(r'^\s*("(?:[^"\\]|\\.)*")(?:@(\d+))?\s*=>\s*("(?:[^"\\]|\\.)*")\s*(?:#\s*(.*))?$')
 ANCHOR_RE = re.compile(r'^\s*("(?:[^"\\]|\\.)*")(?:@(\d+))?\s*(?:#\s*(.*))?$')
 MUT_RE = re.compile(r'^\s*(\S+)\s+("(?:[^"\\]|\\.)*")(?:@(\d+))?\s*=>\s*("(?:[^"\\]|\\.)*")\s*(?:#\s*(.*))?$')
@@ -794,11 +794,11 @@ def parse_template(text):
             if not mm:
                 raise ExtractError(f"template line {i+1}: bad anchor")
             pending = (d, (d, lex_anchor(unq(mm.group(1))), int(mm.group(2)) if mm.group(2) else None), [])
-        elif d in ("sub", "sub1"):
+        elif d in ("sub", "sub1", "sub?"):
             mm = SUB_RE.match(rest)
             if not mm:
                 raise ExtractError(f"template line {i+1}: bad sub")
-            cur.subs.append((lex_anchor(unq(mm.group(1))), int(mm.group(2)) if mm.group(2) else None, unq(mm.group(3)), mm.group(4) or "sub", d == "sub1"))
+            cur.subs.append((lex_anchor(unq(mm.group(1))), int(mm.group(2)) if mm.group(2) else None, unq(mm.group(3)), mm.group(4) or "sub", d == "sub1", d != "sub?"))
         elif d == "mutant":
             mm = MUT_RE.match(rest)
             if not mm:
@@ -929,8 +929,8 @@ def extract_item(item, meta, mutant=None, twin=False):
             fired.add(tag)
             last_end = h + len(anchor) - 1
 
-    for (anchor, k, text, tag, exact1) in item.subs:
-        apply_sub(anchor, k, text, tag, exact1)
+    for (anchor, k, text, tag, exact1, required) in item.subs:
+        apply_sub(anchor, k, text, tag, exact1, required)
     for (anchor, text, tag) in meta["gsubs"]:
         apply_sub(anchor, None, text, tag, False, required=False)
     if mutant is not None:
